@@ -21,7 +21,8 @@ PROPS = {
          "lookups, setdefault/pop, split, clear) against whole-view postconditions, plus _Tree._search and compare; C: every "
          "expansion of the binary-search macros BUCKET_SEARCH / BTREE_SEARCH in the integer-keyed translation units (F-SEARCH: found "
          "<=> key at the returned index, absent => insertion point, interior nodes pick the child whose separator range holds the key, "
-         "reads in bounds, no int overflow, termination - for all lengths, contents and keys). "
+         "reads in bounds, no int overflow, termination - for all lengths, contents and keys); the first-bucket protocol of deletions in "
+         "_BTree_set (F-UNLINK: the left sibling unlinks, status 2 only from the first child). "
          "Bounded: the interior-node level of both implementations and the rest of the C leaf layer (hist_rt, model mode, incl. in-place "
          "operators with self / repeating operands and rejected writes on empty trees).",
          "A1 Python semantics as encoded, A2 total order on keys, A3 persistent.__setattr__, A5, A6, A7 z3 + VC generator; "
@@ -44,7 +45,8 @@ PROPS = {
          "_deleteNextBucket; structural view, node-local with children abstracted by first-leaf / successor-link summaries) "
          "preserves exactly the clauses _check() tests, incl. the first-leaf hand-off of deletions, the linking of split halves "
          "and the root split; leaf split / unlink / sortedness; _check itself returns normally iff those clauses hold. C: bucket_split "
-         "(F-SPLIT, loop-free: exact halves, non-empty, chain re-linked, registered; unchanged on a failed allocation). "
+         "and BTree_split (F-SPLIT, loop-free: exact halves, non-empty, chain re-linked / firstbucket of the new node, registered; "
+         "unchanged on a failed allocation); the first-bucket protocol of deletions in _BTree_set (F-UNLINK). "
          "Bounded: key containment within separator ranges, size limits, the rest of the C implementation (hist_rt wf mode).",
          "A1-A3, A7, A8b (an operation on a child changes only that child's subtree: the modifies lists; the same frame is what the "
          "contract claims for the node itself), node sizes >= 1; L-height argued in DESIGN.md 5.4; _Tree.minKey assumed total on a "
